@@ -53,20 +53,20 @@ pub fn main() {
             let mut disagreed = false;
             // after a clock jump every origin is heard through every source, then the actor is asked to purge: the
             // tombstones from before the jump really go (or their removal fails in storage)
-            // (origin, source, kind if fixed, document if fixed, seconds the stamp lies back)
-            let mut script: std::collections::VecDeque<(u8, usize, Option<u8>, Option<u64>, u64)> = Default::default();
+            // (origin, source, kind if fixed, document if fixed, seconds the stamp lies back, seconds the clock moves on first)
+            let mut script: std::collections::VecDeque<(u8, usize, Option<u8>, Option<u64>, u64, u64)> = Default::default();
             for step in 0..len {
-                now += rng.gen_range(0..40);
+                now += if script.is_empty() { rng.gen_range(0..40) } else { rng.gen_range(0..2) };
                 if script.is_empty() && rng.gen_range(0..25) == 0 {
                     now += rng.gen_range(3_601..9_000);
                     jumps += 1;
                     if rng.gen_bool(0.7) {
                         for o in 1..4u8 {
                             for src in 0..2usize {
-                                script.push_back((o, src, None, None, 0));
+                                script.push_back((o, src, None, None, 0, 0));
                             }
                         }
-                        script.push_back((1, 0, Some(4), None, 0));
+                        script.push_back((1, 0, Some(4), None, 0, 0));
                     }
                 }
                 // the motif C08 is about: a document is deleted, the actor purges, a write older than the delete (but well
@@ -74,11 +74,33 @@ pub fn main() {
                 if script.is_empty() && rng.gen_range(0..15) == 0 {
                     let k = IDS[rng.gen_range(0..IDS.len())];
                     let o: u8 = rng.gen_range(1..4);
-                    script.push_back((o, rng.gen_range(0..2), Some(1), Some(k), 0));
-                    script.push_back((1, 0, Some(4), None, 0));
-                    script.push_back((if rng.gen_bool(0.5) { o } else { rng.gen_range(1..4) }, rng.gen_range(0..2), Some(0), Some(k), rng.gen_range(45..600)));
+                    script.push_back((o, rng.gen_range(0..2), Some(1), Some(k), 0, 0));
+                    script.push_back((1, 0, Some(4), None, 0, 0));
+                    script.push_back((if rng.gen_bool(0.5) { o } else { rng.gen_range(1..4) }, rng.gen_range(0..2), Some(0), Some(k), rng.gen_range(45..600), 0));
+                }
+                // the same motif at the edge of the forgiveness period: the delete is almost an hour old when everybody has been
+                // heard and the actor purges (the tombstone must stay: a write may still be on its way), then a write of another
+                // node arrives that is a little older than the delete - and still less than the forgiveness period old
+                if script.is_empty() && rng.gen_range(0..20) == 0 {
+                    let k = IDS[rng.gen_range(0..IDS.len())];
+                    let o: u8 = rng.gen_range(1..4);
+                    let other = 1 + (o % 3);
+                    let wait = 3_600 - rng.gen_range(12..85);
+                    script.push_back((o, rng.gen_range(0..2), Some(1), Some(k), 0, 0));
+                    let mut first = true;
+                    for n in 1..4u8 {
+                        for src in 0..2usize {
+                            script.push_back((n, src, None, None, 0, if first { wait } else { 0 }));
+                            first = false;
+                        }
+                    }
+                    script.push_back((1, 0, Some(4), None, 0, 0));
+                    script.push_back((other, rng.gen_range(0..2), Some(0), Some(k), wait + rng.gen_range(2..10), 0));
                 }
                 let scripted = script.pop_front();
+                if let Some(x) = scripted {
+                    now += x.5;
+                }
                 counter = counter.wrapping_add(1) % 1000;
                 let origin: u8 = scripted.map(|x| x.0).unwrap_or_else(|| rng.gen_range(1..4));
                 // fresh, late but well inside the forgiveness period, or (rarely) too old
@@ -92,14 +114,14 @@ pub fn main() {
                 let source = scripted.map(|x| x.1).unwrap_or_else(|| rng.gen_range(0..2));
                 // 0 put, 1 delete, 2 bulk put, 3 bulk delete, 4 purge
                 let kind = match scripted {
-                    Some((_, _, Some(k), _, _)) => k,
+                    Some((_, _, Some(k), _, _, _)) => k,
                     _ => [0, 0, 0, 0, 1, 1, 2, 2, 3, 3, 4, 0][rng.gen_range(0..12usize)],
                 };
                 let n_ids = if kind == 2 || kind == 3 { rng.gen_range(2..5) } else { 1 };
                 let mut ids: Vec<u64> = (0..n_ids).map(|_| IDS[rng.gen_range(0..IDS.len())]).collect();
                 ids.sort();
                 ids.dedup();
-                if let Some((_, _, _, Some(k), _)) = scripted {
+                if let Some((_, _, _, Some(k), _, _)) = scripted {
                     ids = vec![k];
                 }
                 let before_tombs = tombstones(&decode_set(&actor.send(Serialize).await.expect("serialize")));
